@@ -110,4 +110,8 @@ def harnesses(tier):
     for kind, nm in ((0, 'bzip2'), (1, 'gzip')):
         hs.append(Harness('%s_buffer' % nm, 'decomp', h_buffer, jobs=[dict(kind=kind, streams=n, truncate=False) for n in (1, 2, 3)] + [dict(kind=kind, streams=2, truncate=True), dict(kind=kind, streams=2, truncate=False, big=1)], testgen=gen(1), step_cap=20_000_000,
                           desc='%s in-memory decompressor on 1-3 concatenated streams: everything is returned; truncated input -> error' % nm, bounds='<= 3 streams, payload 1..3 bytes, or 10239..10241 bytes (stream ends around the border of the 10240-byte output chunk); abstract model of the library in the symbolic run, the real library in the native replay'))
+    # the library's own compressor side (shared with C08): what it writes must be a complete stream, also when nothing was written
+    import C08
+    bz = C08.bzip2_harness(tier); bz.name = 'bzip2_compressor_complete'
+    hs.append(bz)
     return hs
